@@ -15,12 +15,13 @@ import (
 // In variable mode (Real32/Real64 only) '1' and 'm' are activated variables as well.
 
 // The Equals alphabets add: 't' 1e-17, 'u' -1e-17, 'n' 1e-9, 'q' 0.75, 'I' +Inf, 'J' -Inf,
-// 'N' NaN (never variables).
+// 'N' NaN (never variables). 'p' and 'r' are the constants 1 and -2 a receiver holds after
+// a Set in its life (life.go; never variables either).
 func letterVal(c byte) float64 {
 	switch c {
-	case '1':
+	case '1', 'p':
 		return 1
-	case 'm':
+	case 'm', 'r':
 		return -2
 	case 't':
 		return 1e-17
@@ -198,6 +199,15 @@ func expected(cs *Case, class string) *expect {
 		B = m.operand(cs.B, cs.slotVar(2), &next)
 	}
 	R = m.operand(cs.R, cs.slotVar(0), &next)
+	if cs.Life != "" {
+		// the receiver at the time of the judged call: wherever its life changed an element
+		// that element is a constant (0, 1 or -2) without derivatives
+		for p, c := range []byte(cs.effR()) {
+			if c != cs.R[p] {
+				R[p] = jet{v: letterVal(c)}
+			}
+		}
+	}
 	e := &expect{prior: R}
 	zero := jet{}
 	switch cs.Op {
